@@ -88,7 +88,9 @@ def cases(draw):
     return {"hsalt": draw(st.integers(0, 15)), "threads": draw(st.sampled_from(["sync", "async", "held"])), "fmt": draw(st.sampled_from(["sdmf", "mdmf", "mdmf"])), "k": k, "n": n, "servers": servers, "steps": steps, "reads": reads,
             "pad": draw(st.sampled_from([0, 0, 0, 4500 * k] if not forced_reads else [4500 * k, 4500 * k, 0])),
             # a modify() by the writer during which another write-cap holder publishes (between the writer's read and its publish): the retry must read what its new survey shows
-            "modrace": draw(st.sampled_from([None, None, None, "modify"]))}
+            "modrace": draw(st.sampled_from([None, None, None, "modify"])),
+            # publish steps (by position) carried out by a write-cap holder that has just opened the file, not by the node that made the earlier versions
+            "fresh": draw(st.lists(st.integers(0, 7), max_size=3, unique=True))}
 
 
 def run_shard(spec, ctx):
@@ -176,6 +178,10 @@ def run_case(case, ctx):
                 n0, w0 = len(shown), len(written)
                 body = b"version-after-%d-steps-" % len(history) + pbytes(len(history), 5 + len(history)) + PAD
                 bodies = [body]
+                wnode = node
+                if len(history) - 1 in case.get("fresh", []):
+                    wnode = g.add_client().nodemaker.create_from_cap(cap)
+                    classes.add("publish-by-newly-opened-node")
                 if step[0] == "update" and fmt == "mdmf":
                     # an in-place update (as `tahoe put --offset` does) of whatever version the writer's survey finds best
                     classes.add("in-place-update")
@@ -183,7 +189,7 @@ def run_case(case, ctx):
                     base = {}
 
                     def do_update():
-                        d0 = node.get_best_mutable_version()
+                        d0 = wnode.get_best_mutable_version()
 
                         def got(mv):
                             base["seq"] = mv.get_sequence_number()
@@ -193,24 +199,26 @@ def run_case(case, ctx):
                     bodies = [b0[:2] + patch + b0[2 + len(patch):] for b0 in contents.get(base.get("seq"), []) if len(b0) >= 2] or [body]
                     body = bodies[0]
                 else:
-                    rr = g.run(node.overwrite(mutfile.mdata(body)))
+                    rr = g.run(wnode.overwrite(mutfile.mdata(body)))
                 g.sched.settle()
-                seen = [s for (c, srv, sh, s, rh) in shown[n0:] if c == 0]
-                new = sorted(set(s for (c, s) in written[w0:] if c == 0))
+                wc_ = 0 if wnode is node else len(g.clients) - 1
+                seen = [s for (c, srv, sh, s, rh) in shown[n0:] if c == wc_]
+                new = sorted(set(s for (c, s) in written[w0:] if c == wc_))
                 if rr[0] == "ok":
                     ctx.check(len(new) == 1, "mixed-seqnums", "%s: one publish wrote shares with sequence numbers %r" % (desc(), new))
                     ns = new[-1]
                     ctx.check(ns > max(seen + [0]), "seqnum-not-above-survey", "%s: publish (offline servers %r) wrote sequence number %d although its survey was shown shares with sequence numbers %r" % (desc(), step[1], ns, sorted(set(seen))),
                               new=ns, seen=max(seen + [0]))
-                    ctx.check(ns > last_seq, "seqnum-not-increasing", "%s: publish wrote sequence number %d after this writer's earlier %d (survey saw %r)" % (desc(), ns, last_seq, sorted(set(seen))),
+                    ctx.check(ns > last_seq or wnode is not node, "seqnum-not-increasing", "%s: publish wrote sequence number %d after this writer's earlier %d (survey saw %r)" % (desc(), ns, last_seq, sorted(set(seen))),
                               survey_saw_previous=max(seen + [0]) >= last_seq)
                     if max(seen + [0]) < last_seq:
                         classes.add("own-previous-version-out-of-reach-of-survey")
                     if ns in contents and body not in contents[ns]:
                         classes.add("seqnum-reused-after-unseen-version")
                     contents.setdefault(ns, []).extend(bodies)
-                    last_seq = max(last_seq, ns)
-                    history.append(("publish", sorted(step[1]), "seq%d" % ns))
+                    if wnode is node:
+                        last_seq = max(last_seq, ns)
+                    history.append(("publish", sorted(step[1]), "seq%d" % ns) + (("by-newly-opened-node",) if wnode is not node else ()))
                 elif rr[0] == "err":
                     classes.add("publish-failed")
                     history.append(("publish", sorted(step[1]), "FAILED:" + type(rr[1]).__name__))
